@@ -331,8 +331,11 @@ func ParseTokenParam(buf []byte, offs int, param *PTokParam,
 					// found new space separated token after param name
 					// e.g.: foo;p1 bar => consider bar new param
 					param.state = paramFIN
-					// return separator pos (as expected)
-					if i >= offs+1 {
+					// return separator pos (as expected): the whitespace
+					// before the new token, if any (it does not depend on
+					// the offset at which this call was resumed)
+					if i >= 1 && (buf[i-1] == ' ' || buf[i-1] == '\t' ||
+						buf[i-1] == '\r' || buf[i-1] == '\n') {
 						return i - 1, ErrHdrOk
 					} else {
 						return i, ErrHdrOk
@@ -480,8 +483,11 @@ func ParseTokenParam(buf []byte, offs int, param *PTokParam,
 					// found new space separated token after param value
 					// e.g.: foo;p1=5 bar =>  consider bar new param
 					param.state = paramFIN
-					// return separator pos (as expected)
-					if i >= offs+1 {
+					// return separator pos (as expected): the whitespace
+					// before the new token, if any (it does not depend on
+					// the offset at which this call was resumed)
+					if i >= 1 && (buf[i-1] == ' ' || buf[i-1] == '\t' ||
+						buf[i-1] == '\r' || buf[i-1] == '\n') {
 						return i - 1, ErrHdrOk
 					} else {
 						return i, ErrHdrOk
